@@ -666,7 +666,7 @@ fn run_isolated_case(cli: &Cli, c: &Case) -> Option<Found> {
         Err(how) => Some(Found {
             class: "process_death".into(),
             sig: format!("process_death:{}", how),
-            message: format!("the process died ({}): stack overflow or abort in pipeline {}", how, c.pipeline),
+            message: format!("the process died or deadlocked ({}) in pipeline {}", how, c.pipeline),
         }),
     }
 }
@@ -946,7 +946,7 @@ pub fn main(cli: &Cli) -> i32 {
         let f = Found {
             class: "process_death".into(),
             sig: format!("process_death:{}", how),
-            message: format!("the process died ({}): stack overflow or abort in pipeline {}", how, c.pipeline),
+            message: format!("the process died or deadlocked ({}) in pipeline {}", how, c.pipeline),
         };
         *sig_counts.entry(f.sig.clone()).or_insert(0) += 1;
         first.entry(f.sig.clone()).or_insert((*k, f));
